@@ -84,6 +84,16 @@ Theorem C11_generated_connect_one_is_the_model : forall gt sg dg f,
 Proof. exact tie_connect_one. Qed.
 Print Assumptions C11_generated_connect_one_is_the_model.
 
+(* the decision theorem, stated of the regenerated connect_one itself: it raises ScenarioError exactly in the documented cases,
+   never fails in another way, and whatever it raises it raises before touching any table *)
+Theorem C11_generated_rejection_exact : forall gt, wfGb gt = true -> forall sg dg f, (sg < length gt)%nat -> (dg < length gt)%nat ->
+  gen_rejected_clean (MV.Gen.ConnectOne.connect_one gt sg dg f) = should_reject gt sg dg f /\
+  (forall e b, MV.Gen.ConnectOne.connect_one gt sg dg f <> GCrashed e b) /\
+  (forall ps b, MV.Gen.ConnectOne.connect_one gt sg dg f = GRejected ps b -> b = []) /\
+  (forall b, MV.Gen.ConnectOne.connect_one gt sg dg f = GWeakRoot b -> b = []).
+Proof. exact generated_rejection_exact. Qed.
+Print Assumptions C11_generated_rejection_exact.
+
 (* where the group tree comes from: World.group, regenerated from mosaik/scenario.py on every run (Gen/GroupFns.v: the statements
    before and after the yield of the context manager), run over any well-nested script of `with world.group():` blocks and
    simulator starts.  Every well-nested script leaves the current group as it found it; a new group's parent is the group that
